@@ -72,9 +72,9 @@ CHECKS = {
    note="Race freedom of the implementation is observed by the race detector on the schedules that occur (probabilistic); the model decides the design's lock discipline for all interleavings. Needs cgo (race detector) - present in this sandbox.",
    design="§6 C14"),
  "C03": dict(
-   technique="TLC enumeration of token sequences in every tag framing (Soup.tla, BFS exhaustive + seeded simulation) replayed into the real Parse/Render under a watchdog; harness-side byte mutations of TLC-generated well-formed programs and deep nestings",
+   technique="TLC explicit-state model checking of the parser's control skeleton (ParserCtl.tla, PlusCal: invariant NoPanic, liveness Termination for every token string up to K; as-built variant refuted) with every model input parsed by the real parser and the predicted error / no-error class compared; TLC enumeration of token sequences in every tag framing (Soup.tla, BFS exhaustive + seeded simulation) replayed into the real Parse/Render under a watchdog; harness-side byte mutations of TLC-generated well-formed programs and deep nestings",
    text="Exhaustive within the bound: every sequence of <=2 tokens over 50 token classes and <=3 tokens over 30 classes (quick; <=3 over 50 and <=4 over 30 thorough: about 1M sequences) x 5 framings, plus seeded random soup of up to 30 tokens (every successor of every visited state), 40 (quick) / 200 (thorough) byte-level mutations of each of 240 / 2400 generated programs, and 16 bracketing constructs nested to depth 256. Oracle: Parse and Render return within 3 s and do not panic.",
-   note="Verdict by enumeration and observation of the real parser; the TLA+ side contributes the input space (and, where ParserCtl.tla is present, termination of the control skeleton). Inputs outside the enumerated token classes are only reached by mutations.",
+   note="ParserCtl.tla: every token string of length <= 2 over the full class vocabulary (quick; <= 3 reduced, <= 5 tiny vocabulary thorough) x 4 continuations; NoPanic and Termination hold with the repaired guards and are refuted for the pinned commit's parser; the model's error / no-error prediction equals the real parser's on all inputs (drift would be reported). Beyond the skeleton the verdict is enumeration and observation of the real parser. Inputs outside the enumerated token classes are only reached by mutations.",
    design="§6 C03"),
  "C04": dict(
    technique="TLC enumeration of the kind matrices (GenKinds.tla) replayed into real plush.Render with a Go value per kind; TLC model checking of the transcribed index/update/append/len decision procedures (IndexGuards.tla, invariant NoPanic: guards imply reflect preconditions) with every cell replayed and the predicted ok/error class compared",
@@ -97,9 +97,9 @@ CHECKS = {
    note="Trusted: PlushSem.tla's composition rules (child scope, data, trusted result, layout recursion, contentFor closure in the defining scope). JS escaping is modelled per character class as the pinned Go toolchain does it.",
    design="§6 C17"),
  "C18": dict(
-   technique="TLC explicit-state enumeration of layouts of canonical token lists (GenLayout.tla: every single-position variation exhaustively, seeded random full layouts by simulation) with SameTokens as invariant and the reference semantics' meaning of the canonical program as expectation; canonical and laid-out sources replayed into real plush.Render",
-   text="9 programs covering all statement kinds; every layout that differs from the canonical printing in exactly one position (separator inside a tag x {space, tab, newline, CR LF, two spaces, # comment, nothing next to a delimiter}; adjacent code tags x {keep, merge with newline / semicolon / space}; comment tag after a tag end): 1.5k layouts exhaustively, plus 300 (quick) / 6000 (thorough) seeded random layouts differing in every position. Real output of canonical and laid-out source must both equal the model's.",
-   note="The program set is fixed (9 programs); layouts never remove a separator between two tokens (the property's exception for - and . is therefore not exercised).",
+   technique="TLC explicit-state enumeration of layouts of canonical token lists (GenLayout.tla: every single-position variation exhaustively, seeded random full layouts by simulation) with SameTokens as invariant and the reference semantics' meaning of the canonical program as expectation; canonical and laid-out sources replayed into real plush.Render. TLC model checking of the transcribed in-tag scanner (InsideLex.tla, invariant LayoutInsensitive over token words x separators), bound to lexer.go by scanning every short string with the real lexer (types, literals, line numbers) and every (laid out, canonical) word pair",
+   text="11 programs covering all statement kinds; every layout that differs from the canonical printing in exactly one position (separator inside a tag x {space, tab, newline, CR LF, two spaces, # comment, nothing next to a delimiter}; adjacent code tags x {keep, merge with newline / semicolon / space}; comment tag after a tag end): 1.5k layouts exhaustively, plus 300 (quick) / 6000 (thorough) seeded random layouts differing in every position. Real output of canonical and laid-out source must both equal the model's. InsideLex.tla: token words <= 2 (quick) / 3 (thorough, 3.4M states) from a 25-word vocabulary x 6 separators after each word: same (type, literal) sequence as with single spaces; all 22.8k (quick) / 637k (thorough) strings of <= 3 / 4 of 28 characters scanned by the real lexer give the machine's tokens.",
+   note="The program set is fixed (11 programs); layouts never remove a separator between two tokens (the property's exception for - and . is therefore not exercised).",
    design="§6 C18"),
  "C15": dict(
    technique="TLC explicit-state enumeration of multi-line templates with one failing tag (GenLines.tla) with the expected line computed declaratively in the model, ErrTheorem (reference semantics reports an error) and ShiftTheorem as invariants; every case replayed into real plush.Render, unshifted and shifted by k newlines",
